@@ -6,10 +6,4 @@ open Output C19
 theorem status_zero_iff_success :
     (rows.all fun r => check r fun o => o.exitZero == succeeded r o) = true := by decide +kernel
 
-theorem C19_partial :
-    (jsonRows.all fun r => (docScenarios r.cmd).all fun s => ((s.1 && s.2) != r.planEmpty) ||
-      check r (fun o => oneDocument o && (o.failed || shapeMismatch r.cmd || conformsCmd r.cmd s.1 s.2)
-                        && (o.exitZero == succeeded r o))) = true := by
-  decide +kernel
-
 end C19.Part
